@@ -103,6 +103,8 @@ def rename_params(it, mapping):
             mem.append(S.Prop(ty(m.type), m.name, m.default))
         elif m.k == 'Op':
             mem.append(S.Op(m.op, ret(m.ret), args(m.args)))
+        elif m.k == 'Dunder':
+            mem.append(S.Dunder(m.name, args(m.args)))
         else:
             mem.append(m)
     base = ty(it.base) if it.base is not None else None
